@@ -40,14 +40,17 @@ ASSUMPTIONS = [
     'undeclared (of, wrt) pairs are only left undeclared when the reference derivative is identically zero at '
     'three random points',
 ]
-MIN_JUDGED = {'quick': 60, 'thorough': 800}
+MIN_JUDGED = {'quick': 150, 'thorough': 3000}
 KINDS = ['ExplicitFuncComp', 'ImplicitFuncComp', 'JaxExplicitComponent', 'JaxImplicitComponent']
 REQUIRED_COUNTERS = ['kind:' + k for k in KINDS] + \
     ['obs:output', 'obs:residual', 'obs:partials', 'obs:totals-fwd', 'obs:totals-rev', 'obs:solved-state',
      'obs:coloring-used:ExplicitFuncComp', 'obs:coloring-used:ImplicitFuncComp',
      'obs:coloring-used:JaxExplicitComponent', 'cell:coloring-declared:JaxImplicitComponent',
      'cell:method-cs', 'cell:method-fd', 'cell:method-jax', 'cell:jit', 'cell:nojit', 'cell:static',
-     'cell:matrix_free', 'cell:decl-pairs', 'cell:decl-inferred', 'obs:second-point']
+     'cell:matrix_free', 'cell:decl-pairs', 'cell:decl-inferred', 'obs:second-point'] + \
+    ['cell:%s/decl-%s/%s' % (k, d, c) for k in KINDS for d in (('none', 'all', 'pairs') if k.startswith('Jax')
+                                                              else ('all', 'pairs'))
+     for c in ('coloring', 'nocoloring')]
 SHARD_TIMEOUT = {'quick': 1200, 'thorough': 3600}
 
 FD_STEP = 1e-6
@@ -61,13 +64,30 @@ def pick(rng, seq):
 # ----------------------------------------------------------------------------------------------
 # case generation
 # ----------------------------------------------------------------------------------------------
-def gen_case(rng, kind):
+# configuration grid (component class x declaration style x coloring [x method / matrix_free]); the quick tier walks
+# through it round-robin (every cell is visited a few times), the thorough tier samples it at random
+FUNC_CELLS = [{'decl': d, 'coloring': c, 'method': m} for m in ('cs', 'jax', 'fd') for c in (False, True)
+              for d in ('all', 'pairs')]
+JAX_CELLS = [{'decl': d, 'coloring': c, 'matrix_free': False} for c in (False, True) for d in ('none', 'all', 'pairs')] + \
+    [{'decl': 'none', 'coloring': False, 'matrix_free': True}, {'decl': 'all', 'coloring': False, 'matrix_free': True}]
+
+
+def cells_of(kind):
+    return JAX_CELLS if kind.startswith('Jax') else FUNC_CELLS
+
+
+def cell_name(kind, cfg):
+    return 'cell:%s/decl-%s/%s' % (kind, cfg['decl'], 'coloring' if cfg['coloring'] else 'nocoloring')
+
+
+def gen_case(rng, kind, lite=False, cell=None):
+    """One case.  lite: small functions (quick tier); cell: configuration entries that are imposed."""
     jaxkind = kind.startswith('Jax')
     with_static = bool(rng.random() < 0.3)
     if kind in ('ExplicitFuncComp', 'JaxExplicitComponent'):
-        fd = F.gen_explicit(rng, with_static=with_static)
+        fd = F.gen_explicit(rng, with_static=with_static, lite=lite)
     else:
-        fd = F.gen_implicit(rng, with_static=with_static)
+        fd = F.gen_implicit(rng, with_static=with_static, lite=lite)
     cfg = {'mode': str(pick(rng, ['fwd', 'rev'])), 'use_jit': bool(rng.random() < 0.5),
            'coloring': bool(rng.random() < 0.55), 'static_val': float(np.round(rng.uniform(0.5, 2.0), 3)),
            'shape_decl': str(pick(rng, ['shape', 'val']))}
@@ -81,8 +101,16 @@ def gen_case(rng, kind):
         cfg['method'] = str(pick(rng, ['cs', 'cs', 'fd', 'jax', 'jax', 'jax']))
         cfg['decl'] = str(pick(rng, ['all', 'all', 'pairs']))
         cfg['matrix_free'] = False
-        if cfg['method'] != 'jax':
-            cfg['use_jit'] = False
+    if lite:
+        # most of the quick tier runs without jit: eagerly executed primitives are compiled once per process and
+        # operand shape and are shared by all cases of a shard, a jitted function is compiled for one case only
+        cfg['use_jit'] = bool(rng.random() < 0.25)
+    if cell:
+        cfg.update(cell)
+    if cfg['matrix_free']:
+        cfg['coloring'] = False
+    if cfg['method'] != 'jax':
+        cfg['use_jit'] = False
     names = list(fd['inputs'])
     if kind == 'ImplicitFuncComp':
         # states interleaved with the inputs in the function signature
@@ -329,7 +357,9 @@ class Ctx(object):
 
     def viol(self, obs, what):
         kind = _subkind(self.case)
-        self.acc.viol('%s:%s:%s' % (kind, _cfgclass(self.case), obs), what, self.case, fp=self.fp,
+        # mechanism (input class + observable) first, configuration cell last: one mechanism that shows in several
+        # cells can be listed with a narrow '<input class>:<observable>:*' prefix
+        self.acc.viol('%s:%s:%s' % (kind, obs, _cfgclass(self.case)), what, self.case, fp=self.fp,
                       new_case=not self.bad)
         self.bad = True
 
@@ -373,8 +403,12 @@ def judge(case, acc, seed=0):
     st_names = list(fd['states']) if implicit else []
     out_names = st_names if implicit else list(fd['outputs'])
     modname = None
+    # the generated reference itself must be evaluable (an exception here is a harness error, not a finding)
+    refcall([np.array(case['points'][0][n], dtype=float).reshape(tuple(shp))
+             for n, shp in list(fd['inputs'].items()) + (list(fd['states'].items()) if implicit else [])])
     # what is being attempted (counted even when the case fails early)
     acc.count('kind:' + kind)
+    acc.count(cell_name(kind, cfg))
     if cfg['coloring']:
         acc.count('cell:coloring-declared:' + kind)
     acc.count('cell:method-' + cfg['method'])
@@ -575,18 +609,33 @@ def judge(case, acc, seed=0):
 # framework entry points
 # ----------------------------------------------------------------------------------------------
 def shards(tier, seed):
-    n, per = (16, 2) if tier == 'quick' else (48, 20)
-    return [{'seed': seed * 9973 + k, 'per': per} for k in range(n)]
+    if tier == 'quick':
+        # 6 shards x 4 rounds x (4 component classes on the grid + 4 cheap cs/fd function components) = 192 small
+        # cases; few shards, because the import of jax/openmdao and the compilation of jax primitives are paid once
+        # per process (a jax case costs 1-3 CPU-seconds, a cs/fd case < 0.1)
+        return [{'seed': seed * 9973 + k, 'per': 4, 'lite': True, 'index': k, 'offset': seed, 'extra': 2}
+                for k in range(6)]
+    return [{'seed': seed * 9973 + k, 'per': 20} for k in range(48)]
 
 
 def run_shard(shard, acc):
     import jax
     jax.config.update('jax_enable_x64', True)
     rng = np.random.default_rng(shard['seed'])
+    lite = bool(shard.get('lite'))
     for rep in range(shard['per']):
-        for kind in KINDS:
-            case = gen_case(rng, kind)
+        for ki, kind in enumerate(KINDS):
+            cell = None
+            if lite:
+                cells = cells_of(kind)
+                # round-robin over the grid; consecutive rounds of all shards together cover it several times
+                cell = cells[(shard['index'] * shard['per'] + rep + shard.get('offset', 0) * 5 + ki * 3) % len(cells)]
+            case = gen_case(rng, kind, lite=lite, cell=cell)
             judge(case, acc, seed=shard['seed'] + rep)
+        for _ in range(shard.get('extra', 0)):
+            for kind in KINDS[:2]:
+                case = gen_case(rng, kind, lite=lite, cell={'method': str(pick(rng, ['cs', 'cs', 'fd']))})
+                judge(case, acc, seed=shard['seed'] + rep)
 
 
 def run_case(case, acc):
